@@ -1,7 +1,8 @@
 (* C17 — kqueue: watch descriptors are always closed again; only user paths are listed.
    Only statements, closed by [exact]; the model is theories/KqModel.v, the proofs are in theories/KqInv.v.
    The statements range over ALL histories / ALL states satisfying the invariant, arbitrary filesystem contents and
-   all three repair flags; [cfg_repo] is the tree as it is.  What is false on the tree as it is appears as _refuted. *)
+   all three repair flags; [cfg_repo] is the tree as it is (with the repairs 833aa17 and c3f1f06), [cfg_before_fix] the tree
+   before them.  What is still false on the tree as it is appears as _refuted, tied to its KNOWN_FINDINGS.txt key. *)
 From Coq Require Import NArith List String Bool.
 From stdpp Require Import gmap.
 From Fsn Require Import KqModel KqInv.
@@ -31,17 +32,44 @@ Theorem C17_watch_end_closes_fd : forall c s fd w mask,
   has mask NOTE_DELETE = true \/ has mask NOTE_RENAME = true ->
   k_led (K (handle c s (fd, mask))) !! fd = None.
 Proof. exact watch_end_closes_fd. Qed.
-(* without those hypotheses it is false on the tree as it is: symlinked watch, entries of a renamed directory *)
+(* without those hypotheses it is false on the tree as it is: keys symlink-added, watched-dir-renamed *)
 Theorem C17_watch_end_closes_fd_refuted :
   (exists h, let s := run cfg_repo h st_init in ledger_list s = [(1, "f")] /\ fails "deleted-file-descriptor-open" cfg_repo h = true)
   /\ (exists h, let s := run cfg_repo h st_init in ledger_list s = [(2, "d/a")] /\ api_list s = [] /\ fails "all-removed-empty" cfg_repo h = true).
 Proof. exact watch_end_closes_fd_refuted. Qed.
 
-(* Close: false on the tree as it is (F3) *)
-Theorem C17_close_releases_all_refuted :
-  exists h, let s := run cfg_repo h st_init in gone s = true /\ ledger_list s = [(1, "f")] /\ infra s = (false, false, false)
-            /\ fails "close-releases-all" cfg_repo h = true.
-Proof. exact close_releases_all_refuted. Qed.
+(* Close (repaired, 833aa17): when Close returns no watch, no watch descriptor, no registration is left … *)
+Theorem C17_close_empties : forall c s,
+  fx_close c = true -> KqInv s -> closed s = false -> gone s = false -> names_clean s ->
+  let s' := api_close c s in
+  closed s' = true /\ t_wd (T s') = ∅ /\ k_led (K s') = ∅ /\ k_regs (K s') = ∅ /\ t_bydir (T s') = ∅ /\ k_pw (K s') = false.
+Proof. exact close_empties. Qed.
+(* … and for all histories before and after the Close, for every configuration with the repaired Close, the ledger
+   holds no watch descriptor and the kqueue no registration from the Close on (so also after the reader has exited) *)
+Theorem C17_close_releases_all : forall c h1 h2,
+  fx_close c = true ->
+  let s0 := before_close c (run c h1 st_init) in
+  closed s0 = false -> gone s0 = false -> names_clean s0 ->
+  let s := run c (h1 ++ SClose :: h2) st_init in
+  k_led (K s) = ∅ /\ k_regs (K s) = ∅ /\ closed s = true.
+Proof. exact close_releases_all. Qed.
+(* names_clean is necessary: key symlink-added (watch filed under the raw, unclean link target) *)
+Theorem C17_close_needs_clean_names_refuted :
+  let s := run cfg_repo w_unclean_link_close st_init in
+  gone s = true /\ ledger_list s = [(1, "/T//x")] /\ fails "close-releases-all" cfg_repo w_unclean_link_close = true.
+Proof. exact close_needs_clean_names_refuted. Qed.
+(* the three repaired defects: gone on cfg_repo, present on cfg_before_fix (what the seeded-defect test reverts to) *)
+Theorem C17_before_fix_refuted :
+  (let s := run cfg_before_fix w_close st_init in gone s = true /\ ledger_list s = [(1, "f")] /\ fails "close-releases-all" cfg_before_fix w_close = true)
+  /\ (api_list (run cfg_before_fix w_unclean st_init) = ["./d"] /\ fails "removed-not-listed" cfg_before_fix w_unclean = true)
+  /\ (api_list (run cfg_before_fix w_fifo st_init) = ["p"] /\ fails "all-removed-empty" cfg_before_fix w_fifo = true).
+Proof. exact before_fix_refuted. Qed.
+
+(* Remove unlists (repaired addUserWatch, c3f1f06): the cleaned path leaves byUser and WatchList *)
+Theorem C17_remove_unlists : forall c s name fd w,
+  KqInv s -> closed s = false -> gone s = false -> tb_byPath (T s) (clean name) = Some (fd, w) ->
+  clean name ∉ t_user (T (api_remove c s name).1) /\ ~ In (clean name) (api_list (api_remove c s name).1).
+Proof. exact remove_unlists. Qed.
 
 (* WatchList: only arguments of earlier Add calls, never an internal per-entry watch *)
 Theorem C17_watchlist_user_only : forall c h q,
@@ -53,21 +81,29 @@ Theorem C17_all_removed_empty_partial : forall s,
   KqInv s -> t_wd (T s) = ∅ ->
   k_led (K s) = ∅ /\ (gone s = false -> k_regs (K s) = ∅) /\ t_bydir (T s) = ∅ /\ (forall p fd, t_path (T s) !! p = Some fd -> fd = 0).
 Proof. exact all_removed_empty_partial. Qed.
-(* … the full statement is false on the tree as it is *)
+(* … the full statement is still false; the possible leftovers, one witness per remaining cause:
+   symlink-added (byUser, path->0, seen), watched-dir-renamed (entries of the renamed directory), fifo-entry (seen[""]),
+   watched-file-overwritten (internal re-watch), dangling-symlink-entry (half-added directory) *)
 Theorem C17_all_removed_empty_refuted :
-  (exists h, let s := run cfg_repo h st_init in api_list s = ["./d"] /\ sizes s = (0, 0, 0, 0, 1) /\ fails "removed-not-listed" cfg_repo h = true)
-  /\ (exists h, let s := run cfg_repo h st_init in api_list s = ["p"] /\ sizes s = (0, 0, 0, 0, 1) /\ fails "all-removed-empty" cfg_repo h = true)
-  /\ (exists h, let s := run cfg_repo h st_init in api_list s = ["l"] /\ sizes s = (0, 1, 0, 1, 1) /\ t_path (T s) !! "l" = Some 0 /\ fails "remove-of-added-fails" cfg_repo h = true)
+  (exists h, let s := run cfg_repo h st_init in api_list s = ["l"] /\ sizes s = (0, 1, 0, 1, 1) /\ t_path (T s) !! "l" = Some 0 /\ fails "remove-of-added-fails" cfg_repo h = true)
   /\ (exists h, let s := run cfg_repo h st_init in api_list s = [] /\ ledger_list s = [(2, "d/a")] /\ sizes s = (1, 1, 1, 1, 0) /\ fails "all-removed-empty" cfg_repo h = true)
-  /\ (exists h, let s := run cfg_repo h st_init in api_list s = [] /\ ledger_list s = [] /\ sizes s = (0, 0, 0, 1, 0) /\ fails "all-removed-empty" cfg_repo h = true).
+  /\ (exists h, let s := run cfg_repo h st_init in api_list s = [] /\ ledger_list s = [] /\ sizes s = (0, 0, 0, 1, 0) /\ fails "all-removed-empty" cfg_repo h = true)
+  /\ (exists h, let s := run cfg_repo h st_init in api_list s = [] /\ ledger_list s = [(2, "a")] /\ sizes s = (1, 1, 1, 1, 0) /\ fails "all-removed-empty" cfg_repo h = true)
+  /\ (exists h, let s := run cfg_repo h st_init in api_list s = [] /\ ledger_list s = [(1, "d"); (2, "d/a")] /\ fails "all-removed-empty" cfg_repo h = true).
 Proof. exact all_removed_empty_refuted. Qed.
+(* keys remove-of-unadded-succeeds, entry-user-removed *)
+Theorem C17_remove_semantics_refuted :
+  (fails "remove-of-unadded-succeeds" cfg_repo w_remove_unadded = true /\ ledger_list (run cfg_repo w_remove_unadded st_init) = [(1, "d")])
+  /\ (fails "change-missed" cfg_repo w_entry_user_removed = true /\ api_list (run cfg_repo w_entry_user_removed st_init) = ["d"]).
+Proof. exact remove_semantics_refuted. Qed.
 
-(* non-vacuity: a directory with entries, watched, changed, removed, closed — under the repaired flags everything is released *)
+(* non-vacuity: a directory with entries, watched under an unclean spelling, changed, removed, re-added, closed:
+   everything is released, every clause of the specification holds; before the fix two descriptors leaked *)
 Example C17_example :
   let h := [SFs (OMkdir "d"); SFs (OCreate "d/a"); SAdd "./d"; SFs (OCreate "d/b"); SFs (OUnlink "d/a"); SRemove "d"; SAdd "d"; SClose] in
-  let s := run cfg_fixed h st_init in
-  ledger_list s = [] /\ sizes s = (0, 0, 0, 0, 0) /\ infra s = (false, false, false) /\ spec_of_model cfg_fixed h = []
-  /\ ledger_list (run cfg_repo h st_init) = [(4, "d"); (5, "d/b")].
+  let s := run cfg_repo h st_init in
+  ledger_list s = [] /\ sizes s = (0, 0, 0, 0, 0) /\ infra s = (false, false, false) /\ spec_of_model cfg_repo h = []
+  /\ ledger_list (run cfg_before_fix h st_init) = [(4, "d"); (5, "d/b")].
 Proof. vm_compute. repeat split; reflexivity. Qed.
 
 Print Assumptions C17_kq_inv_step.
@@ -76,7 +112,12 @@ Print Assumptions C17_ledger_is_dom_wd.
 Print Assumptions C17_remove_closes_fd.
 Print Assumptions C17_watch_end_closes_fd.
 Print Assumptions C17_watch_end_closes_fd_refuted.
-Print Assumptions C17_close_releases_all_refuted.
+Print Assumptions C17_close_empties.
+Print Assumptions C17_close_releases_all.
+Print Assumptions C17_close_needs_clean_names_refuted.
+Print Assumptions C17_before_fix_refuted.
+Print Assumptions C17_remove_unlists.
+Print Assumptions C17_remove_semantics_refuted.
 Print Assumptions C17_watchlist_user_only.
 Print Assumptions C17_all_removed_empty_partial.
 Print Assumptions C17_all_removed_empty_refuted.
